@@ -23,6 +23,26 @@ CHECKS = {
   "note": "Trusted: gosx translation (self-checked natively), z3/cvc5; os.Getpagesize()=4096; Buffer contract stub in groups 1-2; sync.Mutex/atomic intrinsics. Bitmap reasoning only for block sizes <= 4 (quick) / 8 (thorough) and <= 3 segments; the memory-mapped backend and real concurrency beyond the lock-set argument are outside the claim.",
   "technique": TECH + "; inductive step from a symbolic invariant state; lock-set check",
  },
+ "C18": {
+  "text": "Bounded symbolic model checking: Mixer[int] over the real WrapIntSlice iterators, two inputs of 0..2 (quick) / 0..3 (thorough) unconstrained 64-bit elements, ANY selector (each answer a fresh solver boolean, arguments logged) and every script of 6 / 9 calls over {HasNext, Next, Reset}; z3 shows every (value, ok) equals a two-pointer reference merge consuming the same decisions, the selector is consulted exactly when both heads are present and undecided with exactly the heads as arguments, HasNext is idempotent and agrees with Next, Reset restarts; plus sorted inputs under <= merge sorted.",
+  "note": "Trusted: gosx translation (self-checked natively), z3. Longer inputs/scripts and other input iterator types are outside the claim.",
+  "technique": TECH + "; API-bounded symbolic history against a reference model",
+ },
+ "C10": {
+  "text": "Bounded symbolic model checking: every history of up to 6 (quick) / 7 (thorough) operations over {Add, Remove, NewIterator, HasNext, Next, Close} on Map[int,int] with unconstrained 64-bit keys/values and up to 2 / 3 open iterators is executed on the real SSA against a reference model (sequence-numbered entries, iterator = position); z3 decides key equalities on every path; no panic, Len/First/Get after every step, every Next is the first live entry at or after the position, a final drain yields exactly the live entries in order; a second entry lets sync.Pool return any pooled node.",
+  "note": "Trusted: gosx translation (self-checked natively), z3; sync.Pool modelled (real single-P order, or adversarial). Longer histories / more iterators / concurrency outside the claim.",
+  "technique": TECH + "; API-bounded symbolic history against a reference model",
+ },
+ "C11": {
+  "text": "Bounded symbolic model checking: (a) the C10 map histories ending with every iterator closed: linked nodes == Len()+1, no reference count left, list well formed; (b) LRU inductive step: from any cache state satisfying the retention invariant (capacity 1..3 quick / 1..5 thorough, 0..cap entries, symbolic keys) one GetOrCreate/Remove/Clear re-establishes it - so retention stays bounded over histories of any length for those capacities; (c) API histories of cache calls ending in the retention check.",
+  "note": "Trusted: gosx translation (self-checked natively), z3; retention observed by walking the internal list through an overlay accessor; sync.Pool contents not counted. Capacities above the bound outside the claim.",
+  "technique": TECH + "; inductive step from a symbolic invariant state",
+ },
+ "C08": {
+  "text": "Bounded symbolic model checking: Cache (identity mapping), ECache (pk&3 mapping) and ExpirableCache (symbolic expiry instants vs symbolic clock) with capacity 1..3 (quick) / 1..4 (thorough) are driven by every sequence of up to 5 / 7 calls over {GetOrCreate, Remove, Clear} with unconstrained 64-bit keys and a create function that fails by a fresh solver boolean; z3 shows returned values/errors/counts, create calls (iff miss, once), delete-callback log (exactly once per departing entry, creator's key, right value) and the walked recency order equal a reference LRU.",
+  "note": "Trusted: gosx translation (self-checked natively for the two non-clock entries), z3; time intrinsics; ExpirableCache assumes items are not created already expired. Longer sequences / larger capacities outside the claim.",
+  "technique": TECH + "; API-bounded symbolic history against a reference model",
+ },
 }
 
 _PENDING = "check not built yet in this session (solver-based harness planned, see DESIGN.md section 4)"
